@@ -38,6 +38,23 @@ CM_H = 'src/tbb/concurrent_monitor.h'
 CQ_H = 'include/oneapi/tbb/concurrent_queue.h'
 
 MUTANTS = [
+    dict(name='c15-limiter-no-recheck-after-future-decrement', prop='C15', clause='D1', edits=[(FG_H, """            --my_tries;
+            // A decrement that arrived while this put was in flight may have made room again:
+            // pull from the predecessors that were rejected in the meantime (as forward_task() does)
+            if ( check_conditions() && is_graph_active(this->my_graph) ) {
+                typedef forward_task_bypass<limiter_node<T, DecrementType>> task_type;
+                d1::small_object_allocator allocator{};
+                graph_task* ftask = allocator.new_object<task_type>( my_graph, allocator, *this );
+                spawn_in_graph_arena(graph_reference(), *ftask);
+            }
+        }
+        return rtask;""", """            --my_tries;
+        }
+        return rtask;""")]),
+    dict(name='c17-seed2-foreign-free-skips-object-start', prop='C17', clause='D1', edits=[(FE_CPP, """        FreeObject *objectToFree = block->findObjectToFree(object);
+        block->freePublicObject(objectToFree);""", """        block->freePublicObject(static_cast<FreeObject*>(object));""")]),
+    dict(name='c19-seed2-ets-array-sized-from-root', prop='C19', clause='D5', edits=[('include/oneapi/tbb/enumerable_thread_specific.h',
+        "            std::size_t s = r ? r->lg_size : 2;\n            while( c > std::size_t(1)<<(s-1) ) ++s;", "            std::size_t s = r ? r->lg_size + 1 : 2;")]),
     dict(name='c10-seed2-stale-prev-after-upgrade', prop='C10', clause='D1', edits=[(CHM_H, """            bucket_accessor b( this, hash & mask );
         search:
             node_base* prev = nullptr;
